@@ -7,7 +7,7 @@ from qvlib import hir
 from qvlib.extract import VERIF, CheckError
 from qvlib.facts import mir_refs, op_place
 from qvlib.intervals import INT_RANGES, Intervals, ty_range
-from qvlib.paths import Flow, call_matches, explore
+from qvlib.paths import Flow, agg_sites, call_matches, explore
 
 CRATES = ["quiver_core"]
 TABLE_PATH = os.path.join(VERIF, "rules", "tables", "c12.json")
@@ -500,8 +500,102 @@ def r4_representation_independence(ctx):
     ctx.floor(R, "representation matches in binary.rs", n, 5)
 
 
+def r5_rope_shape(ctx):
+    R = "R-C12-5"
+    ctx.rule(R, "rope shape invariants that the readers' reviewed bounds rest on: BinaryData::Tiled / Slice / Concat are constructed only in their "
+                "normalising constructors; a Tiled node is unreachable when the unit is empty (otherwise `count` is not bounded by the rope's checked "
+                "length and every flattening loop runs `count` times: a hang; `index % unit.len()` divides by zero); a Slice node is unreachable when "
+                "offset/offset+length exceed the parent's length; Concat's total_length is the sum of both lengths")
+    F = ctx.facts
+    BD = "quiver_core::binary::BinaryData"
+    homes = {"Tiled": BD + "::tiled", "Slice": BD + "::slice", "Concat": BD + "::concat"}
+    seen = {v: 0 for v in homes}
+    for body in F.bodies():
+        if not body.key.startswith("quiver_"):
+            continue
+        for bi, si, s in agg_sites(body, "binary::BinaryData"):
+            v = s["rv"]["variant"]
+            if v in homes:
+                seen[v] += 1
+                ctx.check(body.key == homes[v], R, "%s|constructs %s" % (body.key, v), "constructed in its normalising constructor",
+                          "BinaryData::%s is constructed outside %s: the invariants its readers rely on are not re-established" % (v, homes[v]), body.loc(bi, si))
+    for v, n in seen.items():
+        if n == 0:
+            raise CheckError("%s: no construction site of BinaryData::%s found" % (R, v))
+    # Tiled: unreachable when the unit is empty
+    tb = F.body(homes["Tiled"])
+    tfl = Flow(tb, through_named=True)
+    unit = tb.param_by_type(lambda ty: ty.startswith("alloc::rc::Rc<quiver_core::binary::BinaryData"), what="unit parameter")
+    aggs = [bi for bi, si, s in agg_sites(tb, "binary::BinaryData", "Tiled")]
+    tests = []
+    for bi, t in tb.calls():
+        c = t.get("callee") or ""
+        if c.endswith("BinaryData::is_empty") and unit in tfl.backward({op_place(t["args"][0])["l"]}, through_calls=("Deref::deref",)):
+            tests.append((bi, t["dest"]["l"], 1))
+    # `unit.len() == 0` form
+    for bi, si, s in tb.stmts():
+        if s["k"] == "assign" and s["rv"]["k"] == "bin" and s["rv"]["op"] in ("Eq", "Ne"):
+            ops = (s["rv"]["l"], s["rv"]["r"])
+            if any(o.get("c") == "const" and o.get("val") == 0 for o in ops):
+                for o in ops:
+                    pl = op_place(o)
+                    if pl and any(c.endswith("BinaryData::len") for c in tfl.slice_reads(pl["l"], through_calls=("Deref::deref",))[3]):
+                        tests.append((bi, (bi, si), 1 if s["rv"]["op"] == "Eq" else 0))
+    ok = False
+    for bi, key, val in tests:
+        if not all(tb.dominates(bi, a) for a in aggs):
+            continue
+        if isinstance(key, tuple):
+            bad = explore(tb, [bi], want="target", targets=aggs, force={key: val})
+        else:
+            bad = None
+            for x in tb.succ[bi]:
+                bad = bad or explore(tb, [(x, {key: val})], want="target", targets=aggs)
+        if bad is None:
+            ok = True
+    ctx.check(ok, R, homes["Tiled"] + "|unit-non-empty", "the Tiled node is unreachable when unit.is_empty() (tile count <= rope length <= checked size)",
+              "BinaryData::tiled can build a Tiled node over an EMPTY unit: its length is 0 for any count, so the builtin's size guard admits any count, "
+              "and every flattening read loops `count` times (hang) / `index % unit.len()` divides by zero", tb.loc(aggs[0]) if aggs else tb.loc(0))
+    # Slice: unreachable when out of bounds
+    sb = F.body(homes["Slice"])
+    sfl = Flow(sb, through_named=True)
+    saggs = [bi for bi, si, s in agg_sites(sb, "binary::BinaryData", "Slice")]
+    cmps = []
+    for bi, si, s in sb.stmts():
+        if s["k"] == "assign" and s["rv"]["k"] == "bin" and s["rv"]["op"] in ("Gt", "Ge", "Lt", "Le"):
+            sides = []
+            for o in (s["rv"]["l"], s["rv"]["r"]):
+                pl = op_place(o)
+                sides.append(sfl.slice_reads(pl["l"], through_calls=("Deref::deref", "Try::branch", "Option::unwrap_or", "Option::unwrap"))[3] if pl else set())
+            lens = [any(c.endswith("BinaryData::len") for c in x) for x in sides]
+            if lens[0] != lens[1]:
+                # value > len  (Gt, len on the right) or len < value (Lt, len on the left): out of bounds when true
+                oob_true = (s["rv"]["op"] in ("Gt",) and lens[1]) or (s["rv"]["op"] in ("Lt",) and lens[0])
+                oob_false = (s["rv"]["op"] in ("Le",) and lens[1]) or (s["rv"]["op"] in ("Ge",) and lens[0])
+                if oob_true or oob_false:
+                    has_add = any(c.endswith("checked_add") for x in sides for c in x)
+                    cmps.append((bi, si, 1 if oob_true else 0, has_add))
+    for want_add, what in ((False, "offset <= parent.len()"), (True, "offset + length <= parent.len() (checked_add)")):
+        cand = [c for c in cmps if c[3] == want_add]
+        ok = bool(cand) and bool(saggs) and any(explore(sb, [bi], want="target", targets=saggs, force={(bi, si): val}) is None and all(sb.dominates(bi, a) for a in saggs) for bi, si, val, _a in cand)
+        ctx.check(ok, R, homes["Slice"] + "|" + ("end" if want_add else "offset"), "the Slice node is unreachable unless %s" % what,
+                  "BinaryData::slice can build a Slice node without establishing %s: readers index the parent out of bounds (panic)" % what, sb.loc(saggs[0]) if saggs else sb.loc(0))
+    # Concat: total_length = left.len() + right.len()
+    cb = F.body(homes["Concat"])
+    cfl = Flow(cb, through_named=True)
+    for bi, si, s in agg_sites(cb, "binary::BinaryData", "Concat"):
+        d = dict(zip(s["rv"]["fields"], s["rv"]["ops"]))
+        pl = op_place(d.get("total_length", {}))
+        callees = cfl.slice_reads(pl["l"], through_calls=("Deref::deref",))[2] if pl else []
+        nlen = len([c for c in cfl.slice_reads(pl["l"], through_calls=("Deref::deref",))[3] if c.endswith("BinaryData::len")]) if pl else 0
+        adds = [1 for b2, s2, st in cb.stmts() if st["k"] == "assign" and st["rv"]["k"] in ("bin", "checked") and st["rv"]["op"] in ("Add", "AddWithOverflow")]
+        lens = [b2 for b2, t in cb.calls() if (t.get("callee") or "").endswith("BinaryData::len")]
+        ctx.check(nlen >= 1 and len(lens) == 2 and bool(adds), R, homes["Concat"] + "|total_length", "total_length is computed from len() of both halves",
+                  "Concat.total_length is not the sum of both halves' len(): len()/byte_at()/flattening disagree about the rope's size", cb.loc(bi, si))
+
+
 def run(ctx):
-    ctx.run_rules([r1_sinks, r3_size_limit, r4_representation_independence])
+    ctx.run_rules([r1_sinks, r3_size_limit, r4_representation_independence, r5_rope_shape])
     ctx.note("NOT decided: agreement of results with a reference model (value level), e.g. the 64-bit field read across 9 bytes (observation F4) or the "
              "contents produced by rope operations")
     return (
